@@ -11,6 +11,7 @@
 #define VF_INPUTS(X) X(unsigned char, b, [M]) X(unsigned, off, ) X(unsigned, lit, ) X(double, strtod_val, ) X(unsigned char, dp, )
 #define VF_MAXSZ (M + 2)
 #include "vf.h"
+#include "vf_str.h"
 #include "vf_libc.h"
 /* the default allocator of the library TU is the counting allocator, so that an implementation that allocates is in the ledger */
 #define malloc vf_malloc
